@@ -78,8 +78,8 @@ package redisemu
 //@ modifies cell alloc
 //@ endcallback
 //@ modifies ghost.now cell alloc
-// an expire time is refused only when it is not positive or when its duration does not fit 64-bit nanoseconds (EX beyond 9223372036 s, PX beyond 9223372036854 ms)
-//@ ensures internal [C02,C07] rejects.only.bad: !valid ==> n <= 0 || ((name == "expiration.seconds" || name == "seconds") && n > 9223372036) || ((name == "expiration.milliseconds" || name == "milliseconds") && n > 9223372036854)
+// an expire time is refused only when it is not positive or when its duration does not fit 64-bit nanoseconds (EX beyond 9223372036 s, PX beyond 9223372036854 ms) or, for EXAT, the time does not fit 64-bit milliseconds
+//@ ensures internal [C02,C07] rejects.only.bad: !valid ==> n <= 0 || ((name == "expiration.seconds" || name == "seconds") && n > 9223372036) || ((name == "expiration.milliseconds" || name == "milliseconds") && n > 9223372036854) || (name == "expiration.unix-time-seconds" && n > 9223372036854775)
 //@ assertafter "expiration = now.Add(time.Second*" [C07] ex.deadline: 0 < unbox(arg, int64) && unbox(arg, int64) <= 4000000000 ==> expiration == now + 1000000000*unbox(arg, int64) - 1
 //@ assertafter "expiration = now.Add(time.Millisecond*" [C07] px.deadline: 0 < unbox(arg, int64) && unbox(arg, int64) <= 4000000000000 ==> expiration == now + 1000000*unbox(arg, int64) - 1
 //@ assertafter "expiration = time.Unix(arg.(int64), 0)" [C07] exat.deadline: 0 < unbox(arg, int64) && unbox(arg, int64) <= 4000000000 ==> expiration == 1000000000*unbox(arg, int64)
@@ -203,3 +203,8 @@ package redisemu
 //@ modifies *
 //@ ensures [C18] bad.bit: old(istype(args["bit"], int64) && unbox(args["bit"], int64) != 0 && unbox(args["bit"], int64) != 1) ==> istype(output.data, respErrorString)
 //@ ensures [C06,C18] readonly: !mutated
+// BITPOS: the value counts as zero-padded on the right (a clear bit is found just past an all-ones value) exactly when no end index was given
+//@ ghost gBpEndGiven bool
+//@ ghostafter "rangeArg, hasRange := args[" : gBpEndGiven = false
+//@ ghostafter "end64 = endIndex.mustGet(" : gBpEndGiven = true
+//@ assertbefore "strBytes, ve := ctx.dsc.getKeyBytes(keyName)" [C18] noend.iff: noEnd == !gBpEndGiven
